@@ -51,34 +51,7 @@ def run(ctx):
     ls = [path_sig(p)[1] for p in nonpanic(walk(f))]
     ctx.check("C03-R1", "buffer_remaining is a suffix of the buffer", ls == ["return BufferReader::buffer(self)[BufferReader::offset(self)..]"],
               "BufferReader::buffer_remaining is not `&buffer()[offset()..]`: %s" % ls, where(f))
-    # driver side
-    f = A.fn("wtransport::datagram::Datagram::read")
-    H3 = r"ok\(Datagram::read\(quic_dgram\)\)"
-    rows = [
-        {"name": "parse error passthrough", "atoms": [r"^Datagram::read\(quic_dgram\) fails$"], "leaf": r"^return Result::Err\(err\(Datagram::read\(quic_dgram\)\)\)$"},
-        {"name": "ok->(same bytes, len(quic)-len(payload), qid.into_session_id())", "atoms": [r"^Datagram::read\(quic_dgram\) ok$"],
-         "leaf": r"^return Result::Ok\(datagram::Datagram\(quic_dgram,SubWithOverflow\(Bytes::len\(quic_dgram\),<impl \[T\]>::len\(Datagram::payload\(%s\)\)\)\.0,QStreamId::into_session_id\(Datagram::qstream_id\(%s\)\)\)\)$" % (H3, H3)},
-    ]
-    match_table(ctx, "C03-R1", f, walk(f), rows, "driver Datagram::read")
-    f = A.fn("wtransport::datagram::Datagram::write")
-    H = r"Datagram::new\(QStreamId::from_session_id\(session_id\),payload\)"
-    BUF = r"Vec::into_boxed_slice\(from_elem\(0,Datagram::write_size\(%s\)\)\)" % H
-    QD = r"<Bytes as From<Box<\[u8\]>>>::from\(%s\)" % BUF
-    ps = nonpanic(walk(f))
-    ls = [path_sig(p)[1] for p in ps]
-    want = r"^return datagram::Datagram\(%s,SubWithOverflow\(Bytes::len\(%s\),<impl \[T\]>::len\(payload\)\)\.0,session_id\)$" % (QD, QD)
-    ctx.check("C03-R1", "driver Datagram::write", len(ls) == 1 and re.match(want, ls[0]) is not None, "driver Datagram::write changed shape: %s" % ls, where(f))
-    evs = [e for p in ps for e in event_strs(p)]
-    ctx.check("C03-R1", "driver Datagram::write serialises into the exact-size buffer", any(re.match(r"^Datagram::write\(%s,\(%s as " % (H, BUF), e) or re.match(r"^Datagram::write\(%s,%s" % (H, BUF), e) or e.startswith("Datagram::write(Datagram::new(QStreamId::from_session_id(session_id),payload),") for e in evs),
-              "driver Datagram::write does not call proto Datagram::write into the buffer of write_size bytes", where(f))
-    for nm, fld in (("payload", r"^return Bytes::slice\(self\.quic_dgram,RangeFrom\(self\.payload_offset\)\)$"),
-                    ("session_id", r"^return self\.session_id$"), ("into_quic_bytes", r"^return self\.quic_dgram$")):
-        f = A.fn("wtransport::datagram::Datagram::%s" % nm)
-        ls = [path_sig(p)[1] for p in nonpanic(walk(f))]
-        ctx.check("C03-R1", "driver Datagram::%s" % nm, len(ls) == 1 and re.match(fld, ls[0]) is not None, "Datagram::%s changed: %s" % (nm, ls), where(f))
-    f = A.fn("<wtransport::datagram::Datagram as std::ops::Deref>::deref")
-    ls = [path_sig(p)[1] for p in nonpanic(walk(f))]
-    ctx.check("C03-R1", "Deref slices from payload_offset", ls == ["return self.quic_dgram[self.payload_offset..]"], "Deref for Datagram changed: %s" % ls, where(f))
+    shared.driver_datagram_tables(ctx, "C03-R1")
 
     ctx.rule("C03-R2", "quarter stream id conversion: write uses from_session_id (>>2), read uses into_session_id (<<2), header size from the quarter id")
     f = A.fn_opt("wtransport::datagram::Datagram::header_size")
@@ -113,17 +86,6 @@ def run(ctx):
               len(forms) == 1 and forms[0] in want,
               "Connection::max_datagram_size is not `quinn_max.checked_sub(size(varint(quarter id of self.session_id)))`; normal form: %s" % forms, where(f),
               key="max_datagram_size normal form")
-    f = A.fn("wtransport::datagram::Datagram::write")
-    ps = nonpanic(walk(f, inline=STOP))
-    evs = [e for p in ps for e in event_strs(p)]
-    QID = "QStreamId::into_varint(QStreamId::from_session_id(session_id))"
-    alloc = sorted({e for e in evs if e.startswith("from_elem(")})
-    ctx.check("C03-R3", "bytes allocated for a datagram == header size + payload length",
-              alloc == ["from_elem(0,AddWithOverflow(%s,<impl [T]>::len(payload)).0)" % (HDR % "session_id")],
-              "driver Datagram::write allocates %s, expected header_size(quarter id) + payload.len()" % alloc, where(f), key="datagram buffer size normal form")
-    puts = sorted({e for e in evs if e.startswith("<BufferWriter as BytesWriter>::put_varint(")})
-    ctx.check("C03-R3", "the header written is the varint of the quarter stream id", len(puts) == 1 and puts[0].endswith("," + QID + ")"),
-              "driver Datagram::write writes %s, expected put_varint(.., %s)" % (puts, QID), where(f), key="datagram header normal form")
     f = A.fn("wtransport::driver::Driver::send_datagram")
     SD = r"Connection::send_datagram\(self\.quic_connection,Datagram::into_quic_bytes\(Datagram::write\(session_id,payload\)\)\)"
     rows = [
